@@ -218,6 +218,19 @@ fn run_block<V: Val>(
             }
         }
     }
+    // restored automata: in scope of C07 and C09 by their statements; a restored automaton must
+    // answer like the original, so termination / linearity (C13) is checked on it as well
+    if matches!(cx.prop, "C07" | "C09" | "C13") && spec.pats.len() <= 3000 {
+        let ntrail = rng.range(0, 4);
+        let trail = gen_bytes(rng, ntrail);
+        let (h2, p2) = ev_roundtrip(t, h, &pma, &trail);
+        ev_table(t, h2, &p2, false, &[]);
+        for hay in hays.iter().take(2) {
+            for m in &methods {
+                ev_search(t, h2, &p2, m, "slice", hay, 0);
+            }
+        }
+    }
     Some((h, pma))
 }
 
@@ -272,7 +285,7 @@ fn small_typed<V: Val>(t: &mut Tracer, rng: &mut Rng, cx: &Ctx, var: Var, kind: 
             }
         }
     }
-    if matches!(cx.prop, "C09" | "C06" | "C07") || rng.chance(1, 4) {
+    if cx.prop == "C06" || (!matches!(cx.prop, "C07" | "C09" | "C13") && rng.chance(1, 4)) {
         let ntrail = rng.range(0, 5);
         let trail = gen_bytes(rng, ntrail);
         let (h2, p2) = ev_roundtrip(t, h, &pma, &trail);
@@ -321,16 +334,7 @@ fn dict_typed<V: Val>(t: &mut Tracer, rng: &mut Rng, cx: &Ctx, var: Var, kind: K
         };
         run_block(t, rng, cx, &twin, &vals, &hays, &[], false);
     }
-    let Some((h, pma)) = run_block(t, rng, cx, &spec, &vals, &hays, &[], false) else { return };
-    if cx.prop == "C09" {
-        let (h2, p2) = ev_roundtrip(t, h, &pma, &[1, 2, 3]);
-        ev_table(t, h2, &p2, false, &[]);
-        for hay in &hays {
-            for m in methods_for(cx.prop, kind) {
-                ev_search(t, h2, &p2, m, "slice", hay, 0);
-            }
-        }
-    }
+    let _ = run_block(t, rng, cx, &spec, &vals, &hays, &[], false);
 }
 
 fn fam_dict(t: &mut Tracer, rng: &mut Rng, cx: &Ctx) {
@@ -396,6 +400,20 @@ fn fam_wide(t: &mut Tracer, rng: &mut Rng, cx: &Ctx) {
     if rng.chance(1, 2) {
         pats.push(vec![base]); // the single label 0x00 / first character
     }
+    if rng.chance(1, 3) {
+        // a wide ROOT: one-label patterns for almost the whole alphabet fill block 0 completely
+        let nroot = if var == Var::B { rng.range(230, 254) } else { rng.range(200, 290) };
+        let mut all: Vec<u32> = (0..universe).collect();
+        rng.shuffle(&mut all);
+        for &x in all.iter().take(nroot) {
+            let p = vec![base + x];
+            if !pats.contains(&p) {
+                pats.push(p);
+            }
+        }
+        prefixes.truncate(2);
+        kids.truncate(rng.range(1, 40));
+    }
     for &p in &prefixes {
         for &x in &kids {
             pats.push(vec![base + p, base + x]);
@@ -434,18 +452,24 @@ fn fam_wide(t: &mut Tracer, rng: &mut Rng, cx: &Ctx) {
 fn fam_chain(t: &mut Tracer, rng: &mut Rng, cx: &Ctx) {
     let var = if cx.prop == "C08" || rng.chance(1, 4) { Var::C } else { Var::B };
     let base: u32 = if var == Var::C { *rng.pick(&[0u32, 0, 0x61, 0x4e00]) } else { 0 };
-    let k = rng.range(2, 6) as u32;
-    // labels 1..k (0x00 / the first character only in the short patterns below)
-    let alpha: Vec<u32> = (1..=k).map(|x| base + x).collect();
+    // 2-5 labels out of 1..=8 (0x00 / the first character only in the short patterns below): the
+    // smallest label decides which small BASE the root gets (BASE = first vacant slot ^ label)
+    let k = rng.range(2, 5);
+    let mut pool: Vec<u32> = (1..=8).collect();
+    rng.shuffle(&mut pool);
+    let mut alpha: Vec<u32> = pool.into_iter().take(k).map(|x| base + x).collect();
+    alpha.sort_unstable();
     let nlong = rng.range(1, 3);
     let mut pats: Vec<Pat> = vec![];
     for _ in 0..nlong {
         let n = if cx.thorough { rng.range(300, 900) } else { rng.range(260, 620) };
         pats.push((0..n).map(|_| *rng.pick(&alpha)).collect());
     }
-    pats.push(vec![base]);
     if rng.chance(1, 2) {
-        pats.push(vec![base, alpha[0]]);
+        pats.push(vec![base]);
+        if rng.chance(1, 2) {
+            pats.push(vec![base, alpha[0]]);
+        }
     }
     for _ in 0..rng.range(0, 4) {
         let l = rng.range(1, 3);
@@ -456,7 +480,7 @@ fn fam_chain(t: &mut Tracer, rng: &mut Rng, cx: &Ctx) {
     }
     rng.shuffle(&mut pats);
     let kind = *rng.pick(&kinds_for(cx.prop));
-    let nfb = *rng.pick(&[16u32, 16, 16, 2, 3, 64]);
+    let nfb = if cx.prop == "C11" { *rng.pick(&[1u32, 2, 2, 3]) } else { *rng.pick(&[16u32, 16, 2, 3, 1, 64]) };
     let spec = BuildSpec { var, kind, entry: "new", via_builder: true, nfb, pats };
     let ha = Alpha { pat: alpha.iter().copied().chain([base]).collect(), extra: vec![base + 40] };
     let hays: Vec<Rc<Vec<u8>>> = (0..3)
@@ -477,11 +501,75 @@ fn fam_chain(t: &mut Tracer, rng: &mut Rng, cx: &Ctx) {
     run_block::<u32>(t, rng, cx, &spec, &[], &hays, &[], false);
 }
 
+/// A haystack longer than 65 535 bytes: offsets beyond the range of any 16-bit bookkeeping.
+fn fam_longhay(t: &mut Tracer, rng: &mut Rng, cx: &Ctx) {
+    let var = if cx.prop == "C08" || rng.chance(1, 3) { Var::C } else { Var::B };
+    let alpha = pick_alphabet(rng, var);
+    let np = rng.range(2, 5);
+    let pats = gen_patterns(rng, &alpha.pat, np, 4);
+    let kind = *rng.pick(&kinds_for(cx.prop));
+    let spec = BuildSpec { var, kind, entry: "new", via_builder: true, nfb: 16, pats };
+    // mostly a filler label that occurs in no pattern, a few occurrences near both ends and across 65 536
+    let filler = alpha.extra.first().copied().unwrap_or(0x7a);
+    let w0 = pat_bytes(var, &vec![filler]).len();
+    let total = (66_000 + rng.below(1500)) / w0 + 8; // about 66 000 BYTES whatever the character width
+    let mut labels: Vec<u32> = vec![filler; total];
+    let put = |labels: &mut Vec<u32>, at: usize, p: &Pat| {
+        for (i, &l) in p.iter().enumerate() {
+            if at + i < labels.len() {
+                labels[at + i] = l;
+            }
+        }
+    };
+    // label index such that the byte offset is near 65 536 for every character width
+    let w = pat_bytes(var, &vec![filler]).len();
+    for &at in &[3usize, 65_530 / w, 65_536 / w, 65_540 / w, total - 6] {
+        let p = spec.pats[rng.below(spec.pats.len())].clone();
+        put(&mut labels, at, &p);
+    }
+    let mut hay = vec![];
+    for &l in &labels {
+        hay.extend_from_slice(&pat_bytes(var, &vec![l]));
+    }
+    let hay = Rc::new(hay);
+    if cx.prop == "C08" && var == Var::C {
+        let twin = BuildSpec {
+            var: Var::B,
+            pats: spec.pats.iter().map(|p| pat_bytes(Var::C, p).iter().map(|&b| u32::from(b)).collect()).collect(),
+            ..spec.clone()
+        };
+        run_block::<u32>(t, rng, cx, &twin, &[], std::slice::from_ref(&hay), &[], false);
+    }
+    run_block::<u32>(t, rng, cx, &spec, &[], std::slice::from_ref(&hay), &[], false);
+}
+
 /// C10: collections with defects injected at random positions
 fn invalid_typed<V: Val>(t: &mut Tracer, rng: &mut Rng, _cx: &Ctx, var: Var, kind: Kind) {
-    let alpha = pick_alphabet(rng, var);
-    let np = rng.range(0, 6);
-    let mut pats = gen_patterns(rng, &alpha.pat, np, 3);
+    let mut alpha = pick_alphabet(rng, var);
+    let mut np = rng.range(0, 6);
+    // sometimes long patterns (of mixed character widths): error paths format the offending pattern
+    let long = rng.chance(1, 3);
+    if long && var == Var::C {
+        alpha.pat = vec![0x61, 0xe9, 0x4e16, 0x1f600, 0x62];
+        np = np.max(1);
+    }
+    let maxlen = if long { rng.range(9, 40) } else { 3 };
+    let mut pats = gen_patterns(rng, &alpha.pat, np, maxlen);
+    if long {
+        // at least one really long entry
+        let n = rng.range(9, maxlen);
+        let p: Pat = (0..n).map(|_| *rng.pick(&alpha.pat)).collect();
+        if !pats.contains(&p) {
+            pats.push(p);
+        }
+    }
+    // a repeat of the longest pattern when patterns are long (the error message formats it)
+    if maxlen > 3 && rng.chance(2, 3) {
+        if let Some(longest) = pats.iter().max_by_key(|p| p.len()).cloned() {
+            let at = rng.range(0, pats.len());
+            pats.insert(at, longest);
+        }
+    }
     // defects: empty entry, repeat of an existing entry (possibly shadowed), none
     let ndef = rng.range(0, 2);
     for _ in 0..ndef {
@@ -608,6 +696,18 @@ fn perm_typed<V: Val>(t: &mut Tracer, rng: &mut Rng, _cx: &Ctx, var: Var, kind: 
         let (h3, c) = ev_build(t, &spec2, &vals2);
         if let Some(c) = c {
             ev_same(t, h1, &a, h3, &c, "permutation");
+        }
+    }
+    // a clone is the same automaton and answers the same
+    {
+        let hc = t.handle();
+        let c = a.clone_pma();
+        t.emit(json!({"ev": "clone", "h": h1, "h2": hc}));
+        ev_same(t, h1, &a, hc, &c, "clone");
+        let hay = Rc::new(gen_haystack(rng, var, &alpha, 20, &spec.pats));
+        for m in kind.methods() {
+            ev_search(t, h1, &a, m, "slice", &hay, 0);
+            ev_search(t, hc, &c, m, "slice", &hay, 0);
         }
     }
     // purity: a clone taken before the searches equals the automaton afterwards
@@ -883,6 +983,9 @@ fn fam_values(t: &mut Tracer, rng: &mut Rng, cx: &Ctx, i: u64) {
 /// The schedule of scenario families for a property; scenario `i` is fully determined by
 /// (prop, tier, seed, i).
 pub fn family_of(prop: &str, i: u64) -> &'static str {
+    if matches!(prop, "C01" | "C02" | "C03" | "C04" | "C05" | "C06" | "C08" | "C12") && i % 24 == 13 {
+        return "longhay";
+    }
     match prop {
         "C01" | "C02" | "C03" | "C05" | "C08" | "C13" => match i % 12 {
             11 | 3 => "dict",
@@ -974,6 +1077,7 @@ pub fn run_scenario(t: &mut Tracer, prop: &str, thorough: bool, seed: u64, i: u6
         "shadow" => fam_shadow(t, &mut rng, &cx),
         "bigindex" => fam_bigindex(t, &mut rng, &cx),
         "wide" => fam_wide(t, &mut rng, &cx),
+        "longhay" => fam_longhay(t, &mut rng, &cx),
         "chain" => fam_chain(t, &mut rng, &cx),
         "longpat" => fam_longpat(t, &mut rng, &cx),
         "values" => fam_values(t, &mut rng, &cx, i),
